@@ -23,6 +23,18 @@ var proseWords = []string{"The", "grammar", "of", "`Expr`", "is", "défini", "as
 
 func prose(r *rand.Rand) string {
 	var sb strings.Builder
+	if r.Intn(12) == 0 {
+		// a soft-wrapped paragraph: one line far longer than any reader's default buffer
+		n := []int{4090, 4097, 5000, 9000, 70000}[r.Intn(5)]
+		for sb.Len() < n {
+			w := proseWords[r.Intn(len(proseWords))]
+			if strings.Contains(w, "`") || w == "\t" {
+				w = "word"
+			}
+			sb.WriteString(w + " ")
+		}
+		sb.WriteString("\n")
+	}
 	for ln := r.Intn(4); ln > 0; ln-- {
 		for w := r.Intn(7); w > 0; w-- {
 			sb.WriteString(proseWords[r.Intn(len(proseWords))])
